@@ -20,7 +20,7 @@ use std::collections::{BTreeMap, BTreeSet};
 pub const META: PropMeta = PropMeta {
     id: "C16",
     level: "exploration",
-    rule: "cases = histories of 1..60 public builder calls over 5 probe paths and 4 substitute source paths: add_derives_for_all, add_attributes_for_all, add_derives_for / add_attributes_for x {specific, recursive}, TypeSubstitutes::{insert, insert_if_not_exists, extend} with valid arguments and with exactly one malformation per call (relative target, parenthesised generics on source or target, lifetime / absolute path / multi-segment path / qualified-self / nested-generic source argument, empty source path, empty target path, lifetime / tuple / array target argument), repeated and interleaved. Oracle: a sequential BTreeMap/BTreeSet model replayed over the same history: (a) the derive and attribute sets emitted on every item of a fixed probe registry (Top -> Mid -> Leaf, Other; Alone) must equal global + own path + recursive-from-ancestors, sorted and duplicate-free; (b) TypeSubstitutes::iter()/contains() must equal the model map (last insert/extend wins, insert_if_not_exists never replaces, key = path segments without generics); (c) each malformed call must be rejected with the documented error kind; (d) a rejected call must leave iter() unchanged. non-trivial = history with >= 1 rejected call and >= 1 overwrite; distinct by history hash.",
+    rule: "cases = histories of 1..60 public builder calls over 5 probe paths and 4 substitute source paths: add_derives_for_all, add_attributes_for_all, add_derives_for / add_attributes_for x {specific, recursive}, TypeSubstitutes::{insert, insert_if_not_exists, extend} with valid arguments and with exactly one malformation per call (relative target, parenthesised generics on source or target, lifetime / absolute path / multi-segment path / qualified-self / nested-generic source argument, empty source path, empty target path, lifetime / tuple / array target argument), repeated and interleaved. Oracle: a sequential BTreeMap/BTreeSet model replayed over the same history: (a) the derive and attribute sets emitted on every item of a fixed probe registry (Top -> Mid -> Leaf, Other; Alone; a field-less Unit) must equal global + own path + recursive-from-ancestors, sorted and duplicate-free; (b) TypeSubstitutes::iter()/contains() must equal the model map (last insert/extend wins, insert_if_not_exists never replaces, key = path segments without generics); (c) each malformed call must be rejected with the documented error kind; (d) a rejected call must leave iter() unchanged. non-trivial = history with >= 1 rejected call and >= 1 overwrite; distinct by history hash.",
     assumptions: &["extend is modelled as sequential inserts that stop at the first rejected element"],
     required_counters: &["calls[insert]", "calls[insert_if_not_exists]", "calls[extend]", "calls[add_derives_for]", "rejected[ExpectedAbsolutePath]", "rejected[ExpectedAngleBracketGenerics]", "rejected[InvalidFromType]", "rejected[InvalidToType]", "rejected[EmptySubstitutePath]", "overwrites", "insert_if_not_exists_kept_old"],
     floor: (1500, 50_000),
@@ -38,7 +38,7 @@ pub enum Op {
     Extend(Vec<(String, String)>),
 }
 
-const PROBE_PATHS: [&str; 6] = ["krate::p::Top", "krate::p::Mid", "krate::p::Leaf", "krate::p::Other", "krate::p::Alone", "krate::p::Unknown"];
+const PROBE_PATHS: [&str; 8] = ["krate::p::Top", "krate::p::Mid", "krate::p::Leaf", "krate::p::Other", "krate::p::Alone", "krate::p::Unit", "krate::p::Unknown", "krate::p::Unit"];
 const SRC_PATHS: [&str; 4] = ["krate::p::Other", "krate::p::Leaf", "x::Y", "Option"];
 
 pub fn probe_program() -> Program {
@@ -57,8 +57,10 @@ pub fn probe_program() -> Program {
         mk("Mid", vec![f("l", Ty::Def(0, vec![])), f("o", Ty::Option(Ty::Def(1, vec![]).b()))]),
         mk("Top", vec![f("m", Ty::Def(2, vec![])), f("v", Ty::Vec(Ty::Tuple(vec![Ty::Def(0, vec![]), Ty::Prim(Prim::U8)]).b()))]),
         mk("Alone", vec![f("y", Ty::Prim(Prim::U16)), f("z", Ty::Prim(Prim::U16))]),
+        // a field-less type: a recursive registration on it reaches nothing but the type itself
+        Def { module: vec!["p".into()], name: "Unit".into(), params: vec![], kind: DefKind::Struct(Style::Unit, vec![]), docs: vec![] },
     ];
-    Program { krate: "krate".into(), defs, markers: vec![], roots: vec![Ty::Def(3, vec![]), Ty::Def(4, vec![])], prefix: vec![] }
+    Program { krate: "krate".into(), defs, markers: vec![], roots: vec![Ty::Def(3, vec![]), Ty::Def(4, vec![]), Ty::Def(5, vec![])], prefix: vec![] }
 }
 
 fn ancestors_or_self(path: &str) -> Vec<&'static str> {
@@ -68,6 +70,7 @@ fn ancestors_or_self(path: &str) -> Vec<&'static str> {
         "krate::p::Leaf" => vec!["krate::p::Leaf", "krate::p::Mid", "krate::p::Top"],
         "krate::p::Other" => vec!["krate::p::Other", "krate::p::Mid", "krate::p::Top"],
         "krate::p::Alone" => vec!["krate::p::Alone"],
+        "krate::p::Unit" => vec!["krate::p::Unit"],
         _ => vec![],
     }
 }
